@@ -620,6 +620,14 @@ CORPUS = [
     (d([_f("f0", ["c0"], ["y0"], {"inputs": [], "outputs": [["y0", ["j"]]]}, ret=[2], internal=[2]),
         _f("f1", ["y0", "x1"], ["y1"], {"inputs": [["y0", ["j"]], ["x1", ["i"]]], "outputs": [["y1", ["i", "j"]]]})],
        [["c0", {"s": "in:c0"}], _arr("x1", 2)], {"i": 2, "j": 2, "k": 1}), "file_array"),
+    # a partially reduced axis whose name re-enters the output through another input: `x[i], w[j] -> y[i, j]`, then
+    # `y[i, :], w[j] -> z[i, j]`; fixing j must be rejected (y's j axis is reduced), fixing i is fine
+    (d([_f("f0", ["x0", "x1"], ["y0"], {"inputs": [["x0", ["i"]], ["x1", ["j"]]], "outputs": [["y0", ["i", "j"]]]}),
+        _f("f1", ["y0", "x1"], ["y1"], {"inputs": [["y0", ["i", None]], ["x1", ["j"]]], "outputs": [["y1", ["i", "j"]]]})],
+       [_arr("x0", 2), _arr("x1", 3)], {"i": 2, "j": 3, "k": 1}), "file_array"),
+    (d([_f("f0", ["x0", "x1"], ["y0"], {"inputs": [["x0", ["i"]], ["x1", ["j"]]], "outputs": [["y0", ["j", "i"]]]}),
+        _f("f1", ["y0", "x0"], ["y1"], {"inputs": [["y0", ["j", None]], ["x0", ["i"]]], "outputs": [["y1", ["i", "j"]]]})],
+       [_arr("x0", 2), _arr("x1", 2)], {"i": 2, "j": 2, "k": 1}), "dict"),
 ]
 
 
